@@ -5,4 +5,5 @@ cPrio2 == ("r1" :> 0) @@ ("r2" :> 0)
 cPrio2m == ("r1" :> 1) @@ ("r2" :> 0)
 cPrio3 == ("r1" :> 0) @@ ("r2" :> 0) @@ ("r3" :> 1)
 cPrio3m == ("r1" :> 1) @@ ("r2" :> 0) @@ ("r3" :> 0)
+cPrio3e == ("r1" :> 0) @@ ("r2" :> 0) @@ ("r3" :> 0)
 =============================================================================
